@@ -48,6 +48,8 @@ class Sim {
   size_t alloc_cap = (size_t)256 << 20;     // single allocation cap while active
   long alloc_fail_nth = -1;                 // n-th "large" (>= 64 KiB) allocation fails
   uint64_t max_yields = 1000000;
+  uint64_t allocs = 0;                      // operator new calls while active (a CPU-bound runaway loop that allocates
+  uint64_t max_allocs = 10000000;           //  never yields: this budget turns it into a deterministic HANG verdict)
   bool record_history = true;
 
   // ---- state of one run ----
@@ -64,6 +66,8 @@ class Sim {
   bool exited = false;
   int exit_code = 0;
   bool step_budget_exceeded = false;
+  bool tainted = false;          // a run was abandoned asynchronously (CPU budget): the worker retires after reporting it
+  double cpu_budget_s = 20.0;    // user CPU seconds one simulated run may burn before it counts as a hang
   int signals_delivered = 0;
   int in_signal = 0;         // nesting depth of simulated signal delivery
 
